@@ -24,6 +24,7 @@ inductive Cmd where
   | catn                   -- like cat, but each input is preceded by its name as presented in $SRCS
   | fg                     -- filegroup over one source file: the output IS the source (no command)
   | opt                    -- like cat; additionally writes `$OUT.extra` (an optional output) iff the result is non-empty
+  | text (content : String) -- `text_file(content=…)`: no command, the output is the content
 deriving DecidableEq, Repr
 
 structure Attrs where
@@ -42,7 +43,7 @@ def pathSer : Tree → String
 
 def cmdTag : Cmd → String
   | .cat => "cat" | .catfirst => "catfirst" | .mkdir => "mkdir" | .const t => "const:" ++ t
-  | .catn => "catn" | .fg => "fg" | .opt => "opt"
+  | .catn => "catn" | .fg => "fg" | .opt => "opt" | .text t => "text:" ++ t
 
 /-- Rule pre-image restricted to what the generator varies, concatenated unframed in `ruleHash`'s order
     (label, sources, output, command). -/
@@ -70,6 +71,7 @@ def exec (a : Attrs) (ins : List (String × Tree)) : Tree :=
   | .const t => .file (t ++ "\n")
   | .catn => .file (String.join (ins.map fun p => p.1 ++ "\n" ++ render p.2))
   | .fg => .file (match ins with | [] => "" | p :: _ => render p.2)
+  | .text t => .file t
   | .opt =>
     let c := String.join (ins.map fun p => render p.2)
     .fileOpt c (if c.isEmpty then none else some c)
